@@ -428,6 +428,22 @@ func (r *Reader) Resolve(obj core.Object) (core.Object, error) {
 // ResolveDeep recursively resolves all indirect references in an object
 // Implements pages.ObjectResolver interface
 func (r *Reader) ResolveDeep(obj core.Object) (core.Object, error) {
+	return r.resolveDeep(obj, make(map[int]bool))
+}
+
+// resolveDeep is ResolveDeep with the set of object numbers on the current
+// resolution path. Object graphs are cyclic (a page refers to its parent,
+// which refers back to the page): a reference to an object that is already
+// being expanded is an error instead of an endless recursion.
+func (r *Reader) resolveDeep(obj core.Object, active map[int]bool) (core.Object, error) {
+	if ref, ok := obj.(core.IndirectRef); ok {
+		if active[ref.Number] {
+			return nil, fmt.Errorf("circular reference detected for object %d", ref.Number)
+		}
+		active[ref.Number] = true
+		defer delete(active, ref.Number)
+	}
+
 	// First resolve if it's a reference
 	resolved, err := r.Resolve(obj)
 	if err != nil {
@@ -439,7 +455,7 @@ func (r *Reader) ResolveDeep(obj core.Object) (core.Object, error) {
 	case core.Array:
 		result := make(core.Array, len(v))
 		for i, elem := range v {
-			resolvedElem, err := r.ResolveDeep(elem)
+			resolvedElem, err := r.resolveDeep(elem, active)
 			if err != nil {
 				return nil, err
 			}
@@ -450,7 +466,7 @@ func (r *Reader) ResolveDeep(obj core.Object) (core.Object, error) {
 	case core.Dict:
 		result := make(core.Dict)
 		for key, val := range v {
-			resolvedVal, err := r.ResolveDeep(val)
+			resolvedVal, err := r.resolveDeep(val, active)
 			if err != nil {
 				return nil, err
 			}
